@@ -70,6 +70,19 @@ impl TypeCollector {
             .collect()
     }
 
+    /// The TypeScript types that type mappings put in place of Rust types. They are written by
+    /// the user and not declared in types.ts, so commands.ts / events.ts must not qualify them
+    pub fn mapped_type_targets(config: &GenerateConfig) -> Vec<String> {
+        let mut targets: Vec<String> = config
+            .type_mappings
+            .iter()
+            .flat_map(|mappings| mappings.values().cloned())
+            .collect();
+        targets.sort();
+        targets.dedup();
+        targets
+    }
+
     /// Filter only the types used by commands
     pub fn collect_used_types(
         &self,
